@@ -89,15 +89,15 @@ AttrStr(a, cls, id, idn, ftok, clsid) ==
               ELSE b1
     IN IF b0 = "" \/ b2 = "" THEN [s |-> "", clsid |-> clsid] ELSE Decorated(a, cls, id, clsid, b2)
 
-RECURSIVE JoinAttrs(_, _, _, _, _, _, _)
-\* "" as soon as one attribute is not modelled
-JoinAttrs(attrs, i, cls, id, idn, ftok, clsid) ==
-    IF i > Len(attrs) THEN "#"
-    ELSE LET r == AttrStr(attrs[i], cls, id, idn, ftok, clsid) IN
-         IF r.s = "" /\ ~(attrs[i].k = "f" /\ attrs[i].t = "CH" /\ attrs[i].v = <<>>) THEN ""
-         ELSE LET rest == JoinAttrs(attrs, i + 1, cls, id, idn, ftok, r.clsid) IN
-              IF rest = "" THEN ""
-              ELSE attrs[i].n \o "=" \o r.s \o (IF rest = "#" THEN "#" ELSE ", " \o rest)
+\* "name=value" items joined with ", " (folded iteratively with FoldLeft; a recursive operator over the thousands of attributes of a
+\* message with 255 group items costs quadratic time).  acc.bad as soon as one attribute is not modelled
+JoinStep(cls, id, idn, ftok, acc, a) ==
+    IF acc.bad THEN acc
+    ELSE LET r == AttrStr(a, cls, id, idn, ftok, acc.clsid) IN
+         IF r.s = "" /\ ~(a.k = "f" /\ a.t = "CH" /\ a.v = <<>>) THEN [acc EXCEPT !.bad = TRUE]
+         ELSE [acc EXCEPT !.s = (IF acc.first THEN "" ELSE acc.s \o ", ") \o a.n \o "=" \o r.s, !.clsid = r.clsid, !.first = FALSE]
+JoinAttrs(attrs, cls, id, idn, ftok) ==
+    FoldLeft(LAMBDA acc, a : JoinStep(cls, id, idn, ftok, acc, a), [s |-> "", clsid |-> -1, bad |-> FALSE, first |-> TRUE], attrs)
 
 \* expected str(msg) for a conforming parse result r of payload P; "" = not modelled
 StrOf(cls, id, P, r, ftok) ==
@@ -105,6 +105,6 @@ StrOf(cls, id, P, r, ftok) ==
     IF Len(P) = 0 THEN "<UBX(" \o idn \o ")>"
     ELSE IF IsNominal(idn) THEN "<UBX(" \o idn \o ", payload=" \o EscapeAll(P) \o ")>"
     ELSE IF r.attrs = <<>> THEN "<UBX(" \o idn \o ", )>"
-    ELSE LET j == JoinAttrs(r.attrs, 1, cls, id, idn, ftok, -1) IN
-         IF j = "" THEN "" ELSE "<UBX(" \o idn \o ", " \o SubSeq(j, 1, Len(j) - 1) \o ")>"
+    ELSE LET j == JoinAttrs(r.attrs, cls, id, idn, ftok) IN
+         IF j.bad THEN "" ELSE "<UBX(" \o idn \o ", " \o j.s \o ")>"
 =============================================================================
